@@ -63,6 +63,8 @@ class ValueGen(object):
     def fresh(self, table):
         r = self.r
         if table in ('ip', 'nr'):
+            if r.random() < 0.4:
+                return gen.rbytes(r, r.randrange(0, 200)).hex()         # every length: the hash walks its input in steps of 8/4/2/1 bytes
             return gen.rbytes(r, r.choice([0, 1, 4, 16, 23, 24, 40, 300 if r.random() < 0.05 else 5])).hex()
         if table == 'ct':
             return [gen.bound_uint(r, 16), gen.bound_uint(r, 16)]
@@ -70,7 +72,7 @@ class ValueGen(object):
             p = r.choice([0.1, 0.5, 1.0])
             return {f: gen.bound_uint(r, b) for f, b in SIG_FIELDS if r.random() < p}
         if table in ('qlist', 'rrlist'):
-            return [gen.bound_uint(r, 32) if r.random() < 0.3 else r.randrange(0, 6) for _ in range(r.choice([0, 1, 2, 5]))]
+            return [gen.bound_uint(r, 32) if r.random() < 0.3 else r.randrange(0, 6) for _ in range(r.choice([0, 1, 2, 5]) if r.random() < 0.7 else r.randrange(0, 40))]
         if table == 'q':
             return [gen.bound_uint(r, 32) if r.random() < 0.3 else r.randrange(4), r.randrange(4)]
         if table == 'rr':
@@ -83,7 +85,7 @@ class ValueGen(object):
             if r.random() < 0.5: j['sai'] = r.randrange(5)
             if r.random() < 0.5: j['sport'] = gen.bound_uint(r, 16)
             if r.random() < 0.5: j['tf'] = gen.bound_uint(r, 8)
-            if r.random() < 0.6: j['pl'] = gen.rbytes(r, r.choice([0, 1, 3, 15, 16, 40])).hex()
+            if r.random() < 0.6: j['pl'] = gen.rbytes(r, r.choice([0, 1, 3, 15, 16, 40]) if r.random() < 0.6 else r.randrange(0, 200)).hex()
             return j
         raise ValueError(table)
 
